@@ -223,3 +223,40 @@ Proof.
   induction l as [|x t IH]; intros H; [reflexivity|].
   cbn [mapM map]. rewrite (H x (or_introl eq_refl)), IH; [reflexivity|]. intros y Hy. apply H. right. exact Hy.
 Qed.
+
+(* ------------------------------------------------------------------ sorting with two comparisons that agree on the list *)
+Lemma insert_by_ext {A} (l1 l2 : A -> A -> bool) x l :
+  (forall y, In y l -> l1 x y = l2 x y) -> insert_by l1 x l = insert_by l2 x l.
+Proof.
+  induction l as [|y t IH]; intros H; [reflexivity|]. cbn [insert_by].
+  rewrite (H y (or_introl eq_refl)). destruct (l2 x y); [reflexivity|]. f_equal. apply IH. intros z Hz. apply H. right. exact Hz.
+Qed.
+
+Lemma sort_by_ext {A} (l1 l2 : A -> A -> bool) l :
+  (forall a b, In a l -> In b l -> l1 a b = l2 a b) -> sort_by l1 l = sort_by l2 l.
+Proof.
+  induction l as [|x t IH]; intros H; [reflexivity|]. cbn [sort_by fold_right].
+  change (fold_right (insert_by l1) [] t) with (sort_by l1 t). change (fold_right (insert_by l2) [] t) with (sort_by l2 t).
+  rewrite IH by (intros a b Ha Hb; apply H; right; assumption).
+  apply insert_by_ext. intros y Hy. apply H; [left; reflexivity|]. right.
+  eapply Permutation_in; [apply sort_perm_gen|exact Hy].
+Qed.
+
+Lemma assign_some w : forall ind d si c, In c w -> zget c (assign w ind d si) <> None.
+Proof.
+  induction w as [|x t IH]; intros ind d si c Hc; [destruct Hc|]. cbn [assign].
+  destruct (in_dec Z.eq_dec c t) as [Ht|Ht]; [apply IH, Ht|].
+  destruct Hc as [->|Hc]; [|contradiction]. rewrite assign_other by exact Ht. rewrite zget_zset_same. discriminate.
+Qed.
+
+Lemma incr_map {A B} (key : B -> Z) (h : A -> B) l : incr (fun a => key (h a)) l -> incr key (map h l).
+Proof.
+  induction l as [|a t IH]; intros H; [constructor|]. inversion H; subst. cbn [map]. constructor; [apply IH; assumption|].
+  rewrite Forall_forall in *. intros b Hb. apply in_map_iff in Hb as (a' & <- & Ha'). auto.
+Qed.
+
+Lemma incr_NoDup {A} (key : A -> Z) l : incr key l -> NoDup l.
+Proof.
+  induction l as [|a t IH]; intros H; [constructor|]. inversion H; subst. constructor; [|apply IH; assumption].
+  intros Hin. rewrite Forall_forall in H3. specialize (H3 a Hin). lia.
+Qed.
